@@ -210,6 +210,10 @@ func requestSeeds() [][]byte {
 	for _, s := range hostile {
 		out = append(out, cat([]byte{0x02, 0, 0}, []byte(s)), cat([]byte{0x0c, 1, 0}, []byte(s)), cat([]byte{0x03, 0, 0}, []byte(s)))
 	}
+	// live transport: complete heads (accepted, and rejected after the blank line was read), no more bytes
+	for _, s := range []string{requestSeedsText[0], strings.Replace(requestSeedsText[0], "Host: server.example.com\r\n", "", 1), strings.Replace(requestSeedsText[0], "Sec-WebSocket-Version: 13\r\n", "", 1)} {
+		out = append(out, cat([]byte{0x02, 0, 0x80}, []byte(s)), cat([]byte{0x02, 1, 0x90}, []byte(s)), cat([]byte{0x03, 0, 0x80}, []byte(s)), cat([]byte{0x00, 0, 0xe0}, []byte(s)))
+	}
 	// line ends at the end of a small read buffer (the 512 and 4096 byte sizes are in TestAlignment)
 	for _, sz := range alignSizes[:2] {
 		k := 0
@@ -243,6 +247,9 @@ func responseSeeds() [][]byte {
 	}
 	for _, s := range hostile {
 		out = append(out, cat([]byte{0x01, 0}, []byte(s)), cat([]byte{0x0b, 1}, []byte(s)))
+	}
+	for _, s := range []string{responseSeedsText[0], responseSeedsText[2], strings.Replace(responseSeedsText[0], "Connection: Upgrade\r\n", "", 1)} {
+		out = append(out, cat([]byte{0x31, 0}, []byte(s)), cat([]byte{0x71, 1}, []byte(s)), cat([]byte{0xb1, 0}, []byte(s)))
 	}
 	for _, sz := range alignSizes[:2] {
 		k := 0
